@@ -2,14 +2,81 @@
 
 CFG = {'module': 'Dnp3.Props.C02',
  'gen': [],
- 'engines': ['pairdata', 'pairmerge', 'db'],
+ 'engines': ['pairdata', 'pairmerge', 'db', 'pairtcp'],
  'engine_model': {'pairsync': 'pair', 'pairdata': 'pair'},
  'monitors': ['converged_after_quiescence',
               'nothing_fabricated',
               'events_delivered_at_least_once',
               'no_resurrection',
               'wire_account'],
- 'rule': 'engine pairmerge (SEARCH ONLY, no model counterpart, nothing diffed: both families of histories '
+ 'rule': 'engine pairtcp (SEARCH ONLY, no Lean-model counterpart: nothing is diffed, the trace monitors '
+         'decide; REAL time on a REAL multi-threaded tokio runtime, so every verdict is either a safety '
+         'statement judged on time stamps whose order is sound whatever the scheduling - a stamp taken '
+         'before an action starts / after it has returned - or an EVENTUAL statement with a generous, '
+         "bounded real-time budget; never a comparison of interleavings).  Public API only: the library's "
+         'real TCP outstation server (dnp3::tcp::Server, add_outstation_no_spawn + bind_no_spawn spawned by '
+         'the harness so that the task JoinHandles are observable, 127.0.0.1:0) and the real master TCP '
+         'client channel (spawn_master_tcp_client: the reconnect loop and back-off of tcp/client.rs, '
+         'tcp/master/client.rs, util/session.rs, the session replacement of tcp/outstation/server.rs + '
+         'server_task.rs, the master start-up sequence of master/task.rs + association.rs), one runtime of 3 '
+         'workers per case, 12 cases at a time on distinct ports; database transactions from a separate user '
+         'thread (fired, not awaited), master user requests as spawned tasks, recording ReadHandler / '
+         "AssociationInformation / OutstationApplication / OutstationInformation of the pair engine's types "
+         'with time stamps, the ClientState and ConnectionState listeners.  Between master and outstation a '
+         "byte-level TCP proxy inside the harness (accepts the master's connection, connects to the "
+         'outstation, forwards both directions through a scripted policy).  Ops: txn (binary / analog / '
+         'counter inputs, classes 0-3, all flag patterns, over-range analogs, points added late, addmany '
+         '30-260 points behind a 249-300 octet response buffer), sleep 0-250 ms, cut (both sockets closed '
+         'now), cut after n octets m2o|o2m (1..700: inside link headers, CRCs, frames), refuse ms (listener '
+         'closed: connection refused, the connect back-off path), reject ms (accepted and closed at once), '
+         "halfopen o (the master's socket closed, the outstation's kept open and silent: the next connection "
+         'meets a running session) / halfopen m, garble m2o|o2m (one flipped bit: session ends in Close '
+         'mode, frame dropped in Discard mode), chunk 1..1000 (writes of n octets), delay m2o|o2m 0-400 ms, '
+         'poll (periodic, 40-300 ms), read, cmd (direct / select-before-operate), busy p demand|read|level '
+         '(1 case in 4: an application task sending the master task a message every 2-20 ms - poll demands, '
+         'class-1 reads, set_decode_level - also while the connection is down and through the tail).  '
+         'Configurations: unsolicited on/off, retries none/0/1/3, event buffers 1-50 per type, tx buffers '
+         '249-2048, both link error modes independently at either end, keep-alives on/off, dis / int / en / '
+         'evscan / ovf masks as in pairdata; confirm time-out 30-100 ms, response time-out 150-400 ms and >= '
+         '2.5 x the confirm time-out (the slow-start configurations belong to pairdata), unsolicited retry '
+         'delay 10-100 ms, task back-off 20-200 ms, ConnectStrategy min 5-20 / max 40-160 / reconnect 0-50 '
+         'ms.  Histories of 6-30 ops (quick: 30 cases of 6-18 ops, every kind x every tail; thorough: 3000 '
+         'cases), kinds cuts / refuse / halfopen / chunk / garble / unsol / overflow / mixed.  Every history '
+         'ends with `clear` (policy reset, listener open, the user thread drained, sockets held by halfopen '
+         'judged and closed) and a quiescent tail of REAL time that ends as soon as every eventual '
+         'obligation is met, at the latest after 15 s: `tail explicit` (user reads of classes 0-3, repeated '
+         'until one issued after `clear` has completed and the picture is right; 1 in 4 cut the connection '
+         'just before `clear`) or `tail auto` (no user request; 1 in 3 cut the connection once more just '
+         "before).  Monitors (semantics of pairdata's, with time stamps in place of op numbers): "
+         'converged_after_quiescence + events_delivered_at_least_once (explicit: every point current, every '
+         "event not overflow-discarded delivered; auto: the per-point OWED rule A / B / C1 (the proxy's last "
+         "connection was established after the transaction of the point's last update had returned, and the "
+         'integrity poll includes class 0) / C2 (IIN2.3 handed to the handler after it while no READ started '
+         'before it was in progress); not owed = counted, not failed), nothing_fabricated (every delivered '
+         "object is an image the harness' ledger holds for that point and type, written before the "
+         'transaction started; objects of a type no point has fail), no_resurrection (a static object '
+         "answering a READ was still current when that READ's task_start was called: its replacing "
+         'transaction had not returned before), reconnects_after_cut (exactly: every '
+         'WaitAfterFailedConnect(d) follows the configured back-off law - min, doubling, capped, reset by a '
+         'success -, WaitAfterDisconnect = reconnect delay; a wait of d is followed by Connecting no earlier '
+         'than d and no later than d + 6 s, Connecting by its outcome within 6 s; at the end of the tail the '
+         'client is Connected through a live proxy connection and, after its last Connected, '
+         'DISABLE_UNSOLICITED / the integrity poll / ENABLE_UNSOLICITED - as configured - were answered in '
+         'that order, seen through AssociationInformation), server_replaces_session (after halfopen o, once '
+         "a later connection has reached the server the old session's socket is closed by the server within "
+         '6 s, and a request forwarded on the replacing connection is answered on it), no_panic (panic hook '
+         "keyed by the case's thread names; the JoinHandles of the outstation task and the server task; the "
+         'master channel still answers), no_hang (user requests complete or fail within 26 s, the user '
+         'thread is never blocked in a transaction, the master task takes messages, wall-clock watchdog of '
+         '150 s per case), harness_ok (ledger and Database::add / update2 agree on which points exist).  A '
+         'case that cannot be judged (a port could not be bound or re-bound) is counted unjudged, not '
+         'failed; after 8 failing cases no further case is started (counted '
+         "unjudged_not_run_after_failures).  A replay runs the case's ops again: the ops are deterministic "
+         'from the seed, the run is not.  Known finding D33 (tag on events_delivered_at_least_once / '
+         'converged_after_quiescence / no_resurrection, signature from observations only: the event was '
+         'carried by a response fragment the proxy received on an earlier connection, never reached the '
+         'handler, and was released - or is still held - while a later connection is the current one).  '
+         'engine pairmerge (SEARCH ONLY, no model counterpart, nothing diffed: both families of histories '
          'with the relay allowed to merge consecutive fragments into one write; only the monitors run).  '
          'engine pairdata: the REAL MasterTask and the REAL OutstationTask, each behind the real link layer '
          'and transport over its own in-memory pipe on one paused clock, joined by the harness acting as the '
@@ -78,8 +145,11 @@ CFG = {'module': 'Dnp3.Props.C02',
                   'pair model: they are tied by C06 / C08',
                   'handler callbacks are recording implementations; user threads are the harness (one '
                   'transaction per op, the tasks run to quiescence after each): real multi-threaded '
-                  'interleavings and the TCP client/server tasks (connect loop, back-off) are NOT exercised '
-                  'by this engine'],
+                  'interleavings and the TCP client/server tasks (connect loop, back-off, session '
+                  'replacement) are NOT exercised by this engine but by the search-only engine pairtcp',
+                  'engine pairtcp: harness/src/eng_pairtcp.rs (byte-level TCP proxy, user thread, recording '
+                  'callbacks with time stamps), mon_pairtcp.rs (ledger, owed rule, D33 signature), '
+                  'gen_pairtcp.rs; search only: it can miss, and what it reports is a run, not a proof'],
  'assumptions': ['tokio timer / Notify semantics on a paused clock',
                  'the relay forwards at most one fragment per write (inside a fragment any re-chunking, '
                  'including stopping inside a link frame for arbitrarily long)',
@@ -98,8 +168,19 @@ CFG = {'module': 'Dnp3.Props.C02',
                'two explicit integrity reads, and tails with no user request at all in which only the '
                "library's own mechanisms act), with the correspondence of both real tasks vs the pair model",
  'level_note': 'trusted: Lean kernel, harness (relay, recording callbacks, reference database / ledger); '
-               'Rust modelled not verified; real TCP, thread interleavings and reconnect back-off outside '
-               'the engine (the real-TCP loopback search of DESIGN.md is not built)',
+               'Rust modelled not verified; real TCP, thread interleavings, reconnect back-off and session '
+               'replacement are outside the theorems and the pair model: they are exercised by the '
+               'search-only engine pairtcp (real TCP over loopback through a scripted proxy, real time, '
+               'multi-threaded runtime; monitors only)',
  'engine_monitors': {'db': ['event_iff_beyond_deadband_of_last_reported',
                             'event_is_recorded_live_in_order',
-                            'kept_until_released_or_discarded']}}
+                            'kept_until_released_or_discarded'],
+                     'pairtcp': ['converged_after_quiescence',
+                                 'events_delivered_at_least_once',
+                                 'nothing_fabricated',
+                                 'no_resurrection',
+                                 'reconnects_after_cut',
+                                 'server_replaces_session',
+                                 'no_panic',
+                                 'no_hang',
+                                 'harness_ok']}}
